@@ -79,6 +79,20 @@ impl GenerationCache {
         Ok(())
     }
 
+    /// Remove the cache record, if there is one.
+    ///
+    /// Called before the output files are rewritten: from that moment on the old
+    /// record no longer describes what is on disk. If the run then fails or is
+    /// killed half-way, no record is left that could vouch for the partly
+    /// rewritten files (e.g. after the source change is reverted).
+    pub fn invalidate<P: AsRef<Path>>(output_dir: P) -> Result<(), CacheError> {
+        match fs::remove_file(Self::cache_path(output_dir)) {
+            Ok(()) => Ok(()),
+            Err(e) if e.kind() == std::io::ErrorKind::NotFound => Ok(()),
+            Err(e) => Err(CacheError::Io(e)),
+        }
+    }
+
     /// Check if generation is needed by comparing with previous cache
     pub fn needs_regeneration<P: AsRef<Path>>(
         output_dir: P,
